@@ -1,6 +1,7 @@
 import Txtpp.Model.Fs
 import Txtpp.Lemmas.ShellFacts
 import Txtpp.Lemmas.EntryGuard
+import Txtpp.Lemmas.ShellSplit
 /-!
 # Property C17 — run commands execute in the source's directory with the documented contract
 
@@ -78,5 +79,25 @@ theorem commands_cannot_recurse (cfg : Cfg) (dir : Path) (name : Str) (hn : name
 
 example : entry (.val "a.txt.txtpp".toList) {} = none ∧ entry .unset {} = some ({} : CliParsed).config ∧
     entry (.val []) {} ≠ none ∧ entry .notUnicode {} ≠ none := by decide
+
+/-- the configured shell (`-s`) is split at white space and nowhere else: the executable and each fixed argument
+are non-empty and contain no white space; a blank setting means `sh -c` -/
+theorem shell_setting_is_split_at_white_space (shellCmd : Str) :
+    (∀ t ∈ (shellOf shellCmd).1 :: (shellOf shellCmd).2, t ≠ [] ∧ ∀ c ∈ t, isWs c = false) ∧
+    ((∀ c ∈ shellCmd, isWs c = true) → shellOf shellCmd = ("sh".toList, ["-c".toList])) := shellOf_tokens shellCmd
+
+example : shellOf "  bash  -e -c ".toList = ("bash".toList, ["-e".toList, "-c".toList]) := by decide
+
+/-- a source that is not below the base directory *component-wise* keeps its full (absolute) path in
+`TXTPP_FILE` - a sibling directory whose name merely extends the base directory's name as text
+(`site` / `site-gen`) is not below it (`Path::strip_prefix` compares components) -/
+theorem txtpp_file_outside_base (base p : Path) (h : base.isPrefixOf p = false) : display base p = p := by
+  unfold display
+  split
+  · rfl
+  · simp [h]
+
+example : display ["r".toList, "site".toList] ["r".toList, "site-gen".toList, "p.txt.txtpp".toList] =
+    ["r".toList, "site-gen".toList, "p.txt.txtpp".toList] := by decide
 
 end C17
